@@ -9,6 +9,15 @@ INS_SRC = ['src/opus.c', 'src/opus_decoder.c']
 INS_FUN = ['opus_packet_parse_impl', 'opus_packet_get_nb_frames', 'opus_packet_get_nb_samples', 'opus_packet_has_lbrr',
            'opus_packet_get_samples_per_frame', 'opus_packet_get_bandwidth']
 
+FSN = [8000, 12000, 16000, 24000, 48000]
+def native_ob(name, fsi, sd, tier, extra):
+    return Ob(name, 'C01_native.c', ['src/opus.c'], ['-DFSI=%d' % fsi, '-DSD=%d' % sd, '-DPL=8', '-DMAXC=4'] + extra, unwind=1,
+              replace=['opus_decode_frame_REAL:stub_decode_frame'],
+              unwindset=['harness:9', 'opus_decode_native:50', 'rec:opus_decode_native:3', 'opus_packet_parse_impl:6', 'rfc_parse:7'],
+              functions=['opus_decode_native', 'opus_packet_parse_impl'], budget=1500, tier=tier, replay=False, mem_gb=16,
+              stubs=['opus_decode_frame: synth stub (asserts its output region lies inside the caller buffer, returns the durations the real function may return, logs calls)'],
+              bounds='Fs=%d, %s framing; any decoder state satisfying validate_opus_decoder; any 8-byte packet with <= 4 frames, any len -1..8, NULL or not; any frame_size 1..120 ms; decode_fec -1..2' % (FSN[fsi], 'self-delimited' if sd else 'standard'))
+
 def obligations():
     L = []
     for code in (0, 1, 2):
@@ -21,4 +30,6 @@ def obligations():
     L.append(Ob('H1.inspect.code3.vbr.le5frames.len12', 'C01_inspect.c', INS_SRC, ['-DMAXLEN=12', '-DCODE=3', '-DVBRBIT=1', '-DCOUNTMAX=5'], unwind=1,
                 unwindset=['harness:13', 'harness.2:49', 'opus_packet_parse_impl:7'], functions=INS_FUN, budget=600,
                 bounds='any bytes in an exact-size object, len 0..12, code 3 VBR with <=5 frames, both framings'))
+    for fsi, sd, tier in ((0, 0, 'quick'), (4, 0, 'quick'), (2, 1, 'quick'), (1, 0, 'thorough'), (3, 0, 'thorough'), (0, 1, 'thorough'), (4, 1, 'thorough')):
+        L.append(native_ob('H2.native_front_end.fs%d.sd%d' % (fsi, sd), fsi, sd, tier, []))
     return L
